@@ -12,6 +12,9 @@
 //!   setfees <o|uN> <p> <s> <b>
 //!   donate <u> <0|1|2> <amt>                          2 = LP tokens
 //!   swapbad <u> <dir> <off> <sent>                    ExecuteMsg::Swap naming a cw20 / mismatching funds
+//!   wdirect <u> <denom 0|1|2|3> <amt>                 ExecuteMsg::WithdrawLiquidity {} with one coin (asset denoms, ujunk) / 3 = no coin
+//!   wfake <u> <asset> <amt>                           cw20 asset `Send` carrying the WithdrawLiquidity hook
+//!   sfake <u> <amt>                                   LP-token `Send` carrying the Swap hook
 //! Observation
 //!   ok|err|panic b=.. pend=.. all=.. burn=.. col=.. chg=.. sent=.. brn=.. tot=.. sup= lpp= fees= pool= u0=a,b,lp …
 //! `chg` / `brn` are summed from the pair's swap events, `sent` from the collector's balance deltas,
@@ -28,6 +31,7 @@ const E18: u128 = 1_000_000_000_000_000_000;
 const DENOMS: [&str; 2] = ["uluna", "uusd"];
 const MIN_LIQ: u128 = 1000;
 const THRESHOLD: u128 = 1000;
+const JUNK: u128 = 1_000_000_000_000;
 
 struct World {
     app: App,
@@ -191,6 +195,9 @@ fn build(kinds: [bool; 2], fees: (u128, u128, u128), n: usize, a: u128, bb: u128
     )));
     let users: Vec<Addr> = (0..n).map(|i| Addr::unchecked(format!("user{i}"))).collect();
     let amts = [a, bb];
+    for u in &users {
+        app.sudo(SudoMsg::Bank(BankSudo::Mint { to_address: u.to_string(), amount: vec![coin(JUNK, "ujunk")] })).map_err(es)?;
+    }
     let mut tokens: [Option<Addr>; 2] = [None, None];
     for k in 0..2 {
         if kinds[k] {
@@ -624,6 +631,59 @@ impl PairEngine {
                     }
                 })
             }
+            ("wdirect", 4) => {
+                let (u, dn, amt) = match (user(ws[1]), ws[2].parse::<usize>(), ws[3].parse::<u128>()) {
+                    (Some(a), Ok(b), Ok(c)) if b <= 3 => (a, b, c),
+                    _ => return "bad-op".into(),
+                };
+                let sender = w.users[u].clone();
+                let funds: Vec<Coin> = match dn {
+                    0 | 1 => vec![coin(amt, DENOMS[dn])],
+                    2 => vec![coin(amt, "ujunk")],
+                    _ => vec![],
+                };
+                let app = &mut w.app;
+                guarded(|| app.execute_contract(sender.clone(), pair.clone(), &p::ExecuteMsg::WithdrawLiquidity {}, &funds))
+            }
+            ("wfake", 4) => {
+                let (u, a, amt) = match (user(ws[1]), ws[2].parse::<usize>(), ws[3].parse::<u128>()) {
+                    (Some(a), Ok(b), Ok(c)) if b <= 1 => (a, b, c),
+                    _ => return "bad-op".into(),
+                };
+                let sender = w.users[u].clone();
+                let token = w.tokens[a].clone();
+                let app = &mut w.app;
+                guarded(|| match &token {
+                    Some(t) => app.execute_contract(
+                        sender.clone(),
+                        t.clone(),
+                        &Cw20ExecuteMsg::Send { contract: pair.to_string(), amount: amt.into(), msg: to_json_binary(&p::Cw20HookMsg::WithdrawLiquidity {}).unwrap() },
+                        &[],
+                    ),
+                    None => Err(cosmwasm_std::StdError::generic_err("native asset has no Send").into()),
+                })
+            }
+            ("sfake", 3) => {
+                let (u, amt) = match (user(ws[1]), ws[2].parse::<u128>()) {
+                    (Some(a), Ok(b)) => (a, b),
+                    _ => return "bad-op".into(),
+                };
+                let sender = w.users[u].clone();
+                let lp = w.lp.clone();
+                let app = &mut w.app;
+                guarded(|| {
+                    app.execute_contract(
+                        sender.clone(),
+                        lp.clone(),
+                        &Cw20ExecuteMsg::Send {
+                            contract: pair.to_string(),
+                            amount: amt.into(),
+                            msg: to_json_binary(&p::Cw20HookMsg::Swap { belief_price: None, max_spread: Some(Decimal::percent(50)), to: None }).unwrap(),
+                        },
+                        &[],
+                    )
+                })
+            }
             _ => return "bad-op".into(),
         };
         let post = w.observe();
@@ -845,6 +905,20 @@ impl PairEngine {
             }
             let to = if rng.chance(4, 5) { u } else { rng.below(n) as usize };
             format!("swap {u} {dir} {off} {} {to}", Self::gen_ms(rng))
+        } else if x < 98 {
+            match rng.below(3) {
+                0 => {
+                    let amt = match rng.below(4) {
+                        0 => MIN_LIQ,
+                        1 => 1 + rng.below(MIN_LIQ as u64) as u128,
+                        2 => o.users[u][2].max(1),
+                        _ => rng.amount(40).max(1),
+                    };
+                    format!("wdirect {u} {} {amt}", rng.below(4))
+                }
+                1 => format!("wfake {u} {} {}", rng.below(2), rng.amount(40).max(1).min(o.sup.max(1))),
+                _ => format!("sfake {u} {}", (o.users[u][2] / (1 + rng.below(4) as u128)).max(rng.below(2) as u128)),
+            }
         } else if x < 110 {
             let lp = o.users[u][2];
             let amt = match rng.below(10) {
